@@ -209,6 +209,10 @@ def orderWMedianP (maxiter : Nat) (g : G) : M (G × Nat) := do
   -- an ordering is a reordering: every layer list must hold the nodes it held (for the code as it is this never fires; if it did,
   -- the model would err where the code returns and `T:phase3-wmedian` would show it)
   if !sameLayers g.layers g'.layers then throw "model: the ordering phase changed the membership of a layer list"
-  pure ({ g with nodes := g.nodes.mapIdx fun i nd => { nd with pos := (g'.node i).pos }, layers := g'.layers }, x)
+  let r : G := { g with nodes := g.nodes.mapIdx fun i nd => { nd with pos := (g'.node i).pos }, layers := g'.layers }
+  -- … and its result is an order: every layer list sorted by LayerPos 0..k−1, every node in the list of its own layer (the contract
+  -- `K:ordered` evaluates the same predicate on the traced state of the real code)
+  if !orderedOK r then throw "model: the ordering phase returned layer lists that are not ordered by LayerPos"
+  pure (r, x)
 
 end Autog
